@@ -21,6 +21,7 @@ import DxModel.Lemmas.ColsRules
 import DxModel.Lemmas.ColsSem
 import DxModel.Lemmas.ColsMerge
 import DxModel.Lemmas.ColsAssign
+import DxModel.Lemmas.ColsInst
 import DxModel.Generated.ProjFlags
 namespace Dx
 open Dx.Cols
@@ -899,8 +900,11 @@ theorem C04_merge_labels (M : MergeOp γ) (X Y : Frame γ) (p : Parent) (deps : 
     (h : merge M.m X.cols Y.cols p deps = some rw) : (evalMerge M p.cols rw X Y).cols = p.cols := by
   rw [merge_spec h]; rfl
 
-/-- values, left side: a requested label that carries a left column still carries it, matched by the same keys -/
-theorem C04_merge_values_left_partial (M : MergeOp γ) (X Y : Frame γ) (hR : Y.cols.Nodup)
+/-- values, left side: a requested label that carries a left column still carries it, matched by the same keys.
+    (`MergeOp` speaks about joins with duplicate-free result labels: `hlnd`; the pruned join has them too,
+    `mergeLabels_pruned_nodup`.) -/
+theorem C04_merge_values_left_partial (M : MergeOp γ) (X Y : Frame γ) (hL : X.cols.Nodup) (hR : Y.cols.Nodup)
+    (hlnd : (mergeLabels M.m X.cols Y.cols).Nodup)
     (hkeys : KeysDoNotCollide M.m X.cols Y.cols) (hlo : ∀ k, k ∈ M.m.leftOn → k ∈ X.cols) (hro : ∀ k, k ∈ M.m.rightOn → k ∈ Y.cols)
     (p : Parent) (deps : List Dep) (rw : Rw) (h : merge M.m X.cols Y.cols p deps = some rw)
     (c : Name) (hc : c ∈ X.cols) (hreq : labelL M.m Y.cols c ∈ p.cols) :
@@ -909,12 +913,13 @@ theorem C04_merge_values_left_partial (M : MergeOp γ) (X Y : Frame γ) (hR : Y.
   have hproj : (detProj p deps []).toList.contains (labelL M.m Y.cols c) = true := detProj_contains.mpr (parent_mem_union hreq)
   have hsrc := merge_left_source M.m X.cols Y.cols _ hR hkeys.1 hc hproj
   have hlab := labelL_pruned M.m Y.cols _ c (merge_right_sub M.m X.cols Y.cols _ hR) hsrc.2
+  have hlnd' := mergeLabels_pruned_nodup (proj := (detProj p deps []).toList) hL hR hkeys hlnd
   rw [hrw]
   simp only [evalMerge, selOpt_many]
-  rw [select_val_mem hreq, select_val_mem hreq, M.op_left X Y c (List.contains_iff_mem.mpr hc)]
+  rw [select_val_mem hreq, select_val_mem hreq, M.op_left X Y c hlnd (List.contains_iff_mem.mpr hc)]
   rw [← hlab]
   have e := M.op_left (X.select (mergeLists M.m X.cols Y.cols (detProj p deps []).toList).1)
-      (Y.select (mergeLists M.m X.cols Y.cols (detProj p deps []).toList).2) c
+      (Y.select (mergeLists M.m X.cols Y.cols (detProj p deps []).toList).2) c hlnd'
       (by rw [select_cols]; exact List.contains_iff_mem.mpr hsrc.1)
   rw [select_cols] at e
   rw [e, select_val_mem hsrc.1]
@@ -927,7 +932,8 @@ theorem C04_merge_values_left_partial (M : MergeOp γ) (X Y : Frame γ) (hR : Y.
   rw [hT.1]
 
 /-- values, right side -/
-theorem C04_merge_values_right_partial (M : MergeOp γ) (X Y : Frame γ) (hR : Y.cols.Nodup)
+theorem C04_merge_values_right_partial (M : MergeOp γ) (X Y : Frame γ) (hL : X.cols.Nodup) (hR : Y.cols.Nodup)
+    (hlnd : (mergeLabels M.m X.cols Y.cols).Nodup)
     (hkeys : KeysDoNotCollide M.m X.cols Y.cols) (hlo : ∀ k, k ∈ M.m.leftOn → k ∈ X.cols) (hro : ∀ k, k ∈ M.m.rightOn → k ∈ Y.cols)
     (p : Parent) (deps : List Dep) (rw : Rw) (h : merge M.m X.cols Y.cols p deps = some rw)
     (c : Name) (hc : c ∈ Y.cols) (hck : commonKey M.m c = false) (hreq : labelR M.m X.cols c ∈ p.cols) :
@@ -936,12 +942,13 @@ theorem C04_merge_values_right_partial (M : MergeOp γ) (X Y : Frame γ) (hR : Y
   have hproj : (detProj p deps []).toList.contains (labelR M.m X.cols c) = true := detProj_contains.mpr (parent_mem_union hreq)
   have hsrc := merge_right_source M.m X.cols Y.cols _ hR hkeys.2 hc hproj
   have hlab := labelR_pruned M.m X.cols _ c (merge_left_sub M.m X.cols Y.cols _ hR) hsrc.2
+  have hlnd' := mergeLabels_pruned_nodup (proj := (detProj p deps []).toList) hL hR hkeys hlnd
   rw [hrw]
   simp only [evalMerge, selOpt_many]
-  rw [select_val_mem hreq, select_val_mem hreq, M.op_right X Y c (List.contains_iff_mem.mpr hc) hck]
+  rw [select_val_mem hreq, select_val_mem hreq, M.op_right X Y c hlnd (List.contains_iff_mem.mpr hc) hck]
   rw [← hlab]
   have e := M.op_right (X.select (mergeLists M.m X.cols Y.cols (detProj p deps []).toList).1)
-      (Y.select (mergeLists M.m X.cols Y.cols (detProj p deps []).toList).2) c
+      (Y.select (mergeLists M.m X.cols Y.cols (detProj p deps []).toList).2) c hlnd'
       (by rw [select_cols]; exact List.contains_iff_mem.mpr hsrc.1) hck
   rw [select_cols] at e
   rw [e, select_val_mem hsrc.1]
@@ -952,6 +959,15 @@ theorem C04_merge_values_right_partial (M : MergeOp γ) (X Y : Frame γ) (hR : Y
       (fun k hk => select_val_mem (merge_right_keys M.m X.cols Y.cols _ hR (List.contains_iff_mem.mp hk)
         (hro k (List.contains_iff_mem.mp hk))))
   rw [hT.2]
+
+/-- the pruned join is again a join `MergeOp` speaks about: duplicate-free result labels, keys present -/
+theorem C04_merge_pruned_wf (m : MergeP) (L R : List Name) (hL : L.Nodup) (hR : R.Nodup) (hkeys : KeysDoNotCollide m L R)
+    (hlnd : (mergeLabels m L R).Nodup) (proj : List Name) :
+    (mergeLabels m (mergeLists m L R proj).1 (mergeLists m L R proj).2).Nodup ∧
+    KeysDoNotCollide m (mergeLists m L R proj).1 (mergeLists m L R proj).2 :=
+  ⟨mergeLabels_pruned_nodup hL hR hkeys hlnd,
+   fun c hc hcr => hkeys.1 c hc (merge_right_sub m L R proj hR c hcr),
+   fun c hc hcl => hkeys.2 c hc (merge_left_sub m L R proj hR c hcl)⟩
 
 /-- N1: the key 'b' of the left side collides with the non-key 'b' of the right side; 'b_x' is requested and the
     pruned merge (left [b], right [k2]) no longer produces it -/
@@ -993,19 +1009,25 @@ theorem C04_concat_wf (inner : Bool) (frames : List (List Name)) (p : Parent) (d
     · exact Or.inl h1
     · exact Or.inr ⟨_, h1, concatKeepCols_adequate false f p deps, concatKeepCols_ne_nil _ f⟩
 
-/-- labels: the parent projection is dropped only when the new Concat's own columns are exactly the requested list
-    (and the parent is a frame selection); otherwise it is re-applied -/
+/-- labels: the parent projection is dropped only when the labels the new Concat DECLARES (`Concat._meta` leaves inputs
+    without columns out) are exactly the requested list (and the parent is a frame selection); otherwise it is re-applied -/
 theorem C04_concat_labels (axis1 inner : Bool) (frames : List (List Name)) (p : Parent) (deps : List Dep) (rw : Rw)
     (h : concat axis1 inner frames p deps = some rw) (hk : rw.keep = false) :
-    concatCols axis1 inner (((frames.filter (fun f => !concatDropped axis1 (detProj p deps []).toList f)).map
-        (concatKeepCols axis1 (detProj p deps []).toList))) = p.cols ∧ p.ndim1 = false := by
-  unfold concat at h
-  simp only at h
-  split at h
-  · cases h
-  · cases h
-    simp only [Bool.not_eq_false', Bool.and_eq_true, decide_eq_true_eq, Bool.not_eq_true'] at hk
-    exact ⟨by rw [hk.1, Parent.operand_toList], hk.2⟩
+    concatLabels axis1 inner (((frames.filter (fun f => !concatDropped axis1 (detProj p deps []).toList f)).map
+        (concatKeepCols axis1 (detProj p deps []).toList))) = p.cols ∧ p.ndim1 = false :=
+  concat_nokeep h hk
+
+/-- inputs without columns do not matter for the declared labels when rows are stacked with `join="outer"`, and there
+    are none when every input has a column (an input that has columns keeps one, `C04_concat_wf`) -/
+theorem C04_concat_declared (axis1 inner : Bool) (fs : List (List Name)) :
+    concatLabels false false fs = concatCols false false fs ∧
+    ((∀ f, f ∈ fs → f ≠ []) → concatLabels axis1 inner fs = concatCols axis1 inner fs) :=
+  ⟨concatLabels_outer fs, concatLabels_of_nonempty axis1 inner⟩
+
+/-- with `join="inner"` an input without columns is NOT part of the declared intersection (D111: dask-expr declares and
+    computes the labels of the other inputs, pandas computes none) -/
+theorem C04_concat_inner_zero_columns :
+    concatLabels false true [["b", "k"], []] = ["b", "k"] ∧ concatCols false true [["b", "k"], []] = [] := by decide
 
 /-- values (`axis=0`): every input's block of a requested column is what it was — an input that has none of the
     requested columns still contributes its (null) block -/
@@ -1268,5 +1290,102 @@ theorem C04_plain_unsound_for_binary :
 
 example : (Generated.projFlags.filter (·.plainUser)).length > 60 := by decide +kernel
 example : (Generated.projFlags.filter (·.absorb)).length > 5 := by decide +kernel
+
+/-! ### 17. the operator structures are inhabited by real, non-degenerate operators
+
+Every theorem above that quantifies over `KeyedOp`, `RelabelOp`, `AssignOp`, `BinOp`, `MergeOp`, `ConcatOp`, `ResetOp`,
+`SourceOp`, `AsTypeOp`, `DropOp` speaks about a non-empty class: Lemmas/ColsInst.lean builds each structure from the
+column-level functions an operator is made of, with all laws proven.  Here: list-valued columns (`none` = null). -/
+namespace C04Inst
+
+def colsOf (F : Frame LCol) : List (Name × Option LCol) := F.cols.map (fun c => (c, F.val c))
+
+def tblL : Name → Option LCol
+  | "k" => some [some 1, some 2, some 2]
+  | "v" => some [some 10, some 20, some 30]
+  | "u" => some [some 5, some 6, some 7]
+  | _ => none
+def tblR : Name → Option LCol
+  | "k" => some [some 2, some 2, some 3]
+  | "w" => some [some 7, some 8, some 9]
+  | _ => none
+
+def Lf : Frame LCol := (SourceOp.ofData tblL).read ["k", "v", "u"]
+def Rf : Frame LCol := (SourceOp.ofData tblR).read ["k", "w"]
+def onK : MergeP := ⟨["k"], ["k"], "_x", "_y"⟩
+
+/-- an inner join with duplicate keys on both sides: 4 result rows, left and right values distinct -/
+example : colsOf ((listMerge false onK).op Lf Rf) =
+    [("k", some [some 2, some 2, some 2, some 2]), ("v", some [some 20, some 20, some 30, some 30]),
+     ("u", some [some 6, some 6, some 7, some 7]), ("w", some [some 7, some 8, some 7, some 8])] := by decide +kernel
+/-- the left join keeps the unmatched left row, padded with a null on the right -/
+example : colsOf ((listMerge true onK).op Lf Rf) =
+    [("k", some [some 1, some 2, some 2, some 2, some 2]), ("v", some [some 10, some 20, some 20, some 30, some 30]),
+     ("u", some [some 5, some 6, some 6, some 7, some 7]), ("w", some [none, some 7, some 8, some 7, some 8])] := by decide +kernel
+/-- not degenerate: a result column depends on the data of the input column it carries -/
+example : (listMerge false onK).TL Lf.val Rf.val (some [some 10, some 20, some 30]) ≠
+    (listMerge false onK).TL Lf.val Rf.val (some [some 10, some 21, some 30]) := by decide +kernel
+
+/-- the hypotheses of `C04_merge_values_left_partial` / `_right_partial` on this join: the rule prunes `u`, and both
+    requested columns keep their values -/
+example : merge onK Lf.cols Rf.cols (.list ["w", "v"]) [] =
+    some { childs := [some (.many ["k", "v"]), some (.many ["k", "w"])], keep := true } := by decide +kernel
+example : (evalMerge (listMerge false onK) ["w", "v"] { childs := [some (.many ["k", "v"]), some (.many ["k", "w"])], keep := true } Lf Rf).val "v"
+    = (((listMerge false onK).op Lf Rf).select ["w", "v"]).val "v" :=
+  C04_merge_values_left_partial (listMerge false onK) Lf Rf (by decide) (by decide) (by decide)
+    (by constructor <;> intro c hc _ <;> simp [listMerge, MergeOp.ofJoin, onK] at hc <;> subst hc <;> decide)
+    (by intro k hk; simp [listMerge, MergeOp.ofJoin, onK] at hk; subst hk; decide)
+    (by intro k hk; simp [listMerge, MergeOp.ofJoin, onK] at hk; subst hk; decide)
+    (.list ["w", "v"]) [] _ (by decide +kernel) "v" (by decide) (by decide)
+
+/-- `KeyedOp`: keep the rows whose key column `k` is > 1 -/
+def keepBig : KeyedOp LCol := KeyedOp.ofFun ["k"] (fun ks x => match ks with
+  | [some k] => (x.zip k).filterMap (fun xk => match xk.2 with
+      | some kv => if kv > 1 then some xk.1 else none
+      | none => none)
+  | _ => x)
+example : colsOf (keepBig.op Lf) = [("k", some [some 2, some 2]), ("v", some [some 20, some 30]), ("u", some [some 6, some 7])] := by
+  decide +kernel
+example : OutMono keepBig := fun l l' c _ hc hin => by
+  rcases hc with h | h
+  · exact h
+  · exact absurd hin h
+
+/-- `RelabelOp`: rename -/
+example : colsOf ((RelabelOp.ofFun (renameFwd [("v", "V")])).op Lf) =
+    [("k", some [some 1, some 2, some 2]), ("V", some [some 10, some 20, some 30]), ("u", some [some 5, some 6, some 7])] := by
+  decide +kernel
+
+/-- `AssignOp`: a repeated key keeps its FIRST position and its LAST value (`df.assign(z=, y=).assign(z=)` → `[…, z, y]`),
+    an existing key is overwritten in place -/
+example : colsOf (AssignOp.std.op [("z", [some 1]), ("y", [some 2]), ("z", [some 3]), ("v", [some 4])] Lf) =
+    [("k", some [some 1, some 2, some 2]), ("v", some [some 4]), ("u", some [some 5, some 6, some 7]),
+     ("z", some [some 3]), ("y", some [some 2])] := by decide +kernel
+example : assignLabels ["a", "b"] ["z", "y", "z"] = ["a", "b", "z", "y"] := by decide
+
+/-- `BinOp`: cell-wise sum (null if either is null) -/
+def addCols (x y : LCol) : LCol := List.zipWith (fun a b => match a, b with
+  | some a, some b => some (a + b)
+  | _, _ => none) x y
+example : ((BinOp.ofFun addCols).op Lf Lf).val "v" = some [some 20, some 40, some 60] := by decide +kernel
+
+/-- `ConcatOp`: rows stacked; the labels are those `Concat._meta` declares -/
+def stackCols (blocks : List (Option LCol)) : Option LCol :=
+  if blocks.all Option.isNone then none else some (blocks.flatMap (fun b => b.getD []))
+example : colsOf ((ConcatOp.ofStack (concatLabels false false) stackCols).op [Lf.select ["k", "v"], Rf]) =
+    [("k", some [some 1, some 2, some 2, some 2, some 2, some 3]), ("v", some [some 10, some 20, some 30]),
+     ("w", some [some 7, some 8, some 9])] := by decide +kernel
+
+/-- `ResetOp`: the former index becomes the first column -/
+example : colsOf ((ResetOp.ofIndex (some [some 0, some 1, some 2]) (resetLabel none)).op false (Lf.select ["v"])) =
+    [("index", some [some 0, some 1, some 2]), ("v", some [some 10, some 20, some 30])] := by decide +kernel
+
+/-- `AsTypeOp`: only the flagged columns are cast; `DropOp` -/
+example : colsOf ((AsTypeOp.ofCast (fun x : LCol => x.map (fun c => c.map (· * 2)))).op (some ["v"]) (Lf.select ["k", "v"])) =
+    [("k", some [some 1, some 2, some 2]), ("v", some [some 20, some 40, some 60])] := by decide +kernel
+example : colsOf (DropOp.std.op ["u", "zz"] Lf) = [("k", some [some 1, some 2, some 2]), ("v", some [some 10, some 20, some 30])] := by
+  decide +kernel
+
+end C04Inst
 
 end Dx
